@@ -84,8 +84,13 @@ def build_world(prop, plan):
             r.add('expect body')
             if url.get('origin_delay'):
                 r.add('wait %d' % url['origin_delay'])
-            r.add('send %s subst seg whole' % tok(head))
-            if url.get('body_pace'):
+            if url.get('one_write'):     # head and body leave the origin in one segment: squid parses the head and completes the entry in the same read
+                r.add('send %s subst seg whole' % Payload(head, enc).token())
+            else:
+                r.add('send %s subst seg whole' % tok(head))
+            if url.get('one_write'):
+                pass
+            elif url.get('body_pace'):
                 r.add('send %s pace 0 %d' % (enc.token(), url['body_pace']))
             else:
                 r.add('send %s' % enc.token())
